@@ -21,7 +21,7 @@ Violations(line) ==
      \* always: never more than N, in listing order, only fetched signatures are evaluated
   \cup R("bounded", Len(o.fetch) > Max(in.n, 0) \/ ~Increasing(o.fetch) \/ Len(o.verify) > Len(o.fetch) \/ ~Increasing(o.verify))
      \* skip: nothing is resolved, listed or fetched
-  \cup R("skip-touches-nothing", in.skip /\ (o.resolves # 0 \/ o.lists # 0 \/ Len(o.fetch) # 0 \/ Len(o.verify) # 0))
+  \cup R("skip-touches-nothing", in.skip # "no" /\ (o.resolves # 0 \/ o.lists # 0 \/ Len(o.fetch) # 0 \/ Len(o.verify) # 0))
 
 Init == l = 1
 Next == /\ l <= Len(Trace)
